@@ -37,6 +37,16 @@ import (
 	"strings"
 )
 
+func unparen(e ast.Expr) ast.Expr {
+	for {
+		p, ok := e.(*ast.ParenExpr)
+		if !ok {
+			return e
+		}
+		e = p.X
+	}
+}
+
 // ---------------------------------------------------------------- kinds
 
 func (t *fnTr) kindOfType(ty types.Type) string {
@@ -74,8 +84,11 @@ func (t *fnTr) kindOfType(ty types.Type) string {
 		}
 	case *types.Map:
 		if kb, ok := u.Key().Underlying().(*types.Basic); ok && kb.Info()&types.IsString != 0 {
-			if t.kindOfType(u.Elem()) == "val" {
+			switch t.kindOfType(u.Elem()) {
+			case "val":
 				return "vmap"
+			case "bool":
+				return "bmap"
 			}
 		}
 	case *types.Slice:
@@ -97,8 +110,12 @@ func (t *fnTr) kindOfType(ty types.Type) string {
 			return "strs"
 		}
 	case *types.Pointer:
-		if k := t.kindOfType(u.Elem()); strings.HasPrefix(k, "rec:") {
+		k := t.kindOfType(u.Elem())
+		if strings.HasPrefix(k, "rec:") {
 			return k
+		}
+		if k == "vlist" || k == "int" || k == "strs" || strings.HasPrefix(k, "recs:") {
+			return "ptr:" + k // an out-parameter: threaded as state
 		}
 		return "tok"
 	case *types.Signature:
@@ -125,6 +142,10 @@ func fnCoqType(k string) string {
 		return "value"
 	case k == "vmap":
 		return "entries"
+	case k == "bmap":
+		return "(list (str * bool))"
+	case strings.HasPrefix(k, "ptr:"):
+		return fnCoqType(k[4:])
 	case k == "vlist":
 		return "(list value)"
 	case k == "tok":
@@ -160,8 +181,10 @@ type lvar struct {
 	kind   string
 	fields map[string]*lvar // struct locals: one Gallina local per field
 	forder []string
-	elemOf types.Object // loop index variable: the slice it indexes
-	elem   string       // ... and the Gallina name of the current element
+	elemOf  types.Object // loop index variable: the slice it indexes
+	elem    string       // ... and the Gallina name of the current element
+	rangeOf string       // range index variable: the text of the ranged expression (X[i] is then the element)
+	isState bool         // an out-parameter of a void function
 }
 
 type extern struct {
@@ -184,6 +207,10 @@ type fnTr struct {
 	inLoop  bool
 	loopEnd func() string
 	escaped map[types.Object]bool
+	state   []*lvar          // out-parameters (pointer / mutated map parameters) of a void function, in parameter order
+	stateAt map[int]*lvar    // parameter position -> state variable
+	self    *types.Func      // the function being translated (recursion)
+	recurs  bool
 }
 
 func (t *fnTr) pos(n ast.Node) string { return t.p.fset.Position(n.Pos()).String() }
@@ -368,6 +395,34 @@ func (t *fnTr) expr(e ast.Expr) string {
 			return "(negb " + t.expr(x.X) + ")"
 		}
 		t.unsupported(e, "unary "+x.Op.String())
+	case *ast.StarExpr:
+		if id, ok := x.X.(*ast.Ident); ok {
+			if lv, ok := t.locals[t.p.info.Uses[id]]; ok && strings.HasPrefix(lv.kind, "ptr:") {
+				return lv.name
+			}
+		}
+		t.unsupported(e, "dereference of something other than an out-parameter")
+	case *ast.CompositeLit:
+		k := t.kindOfExpr(e)
+		if strings.HasPrefix(k, "rec:") {
+			st := t.structs[k[4:]]
+			if st == nil || len(x.Elts) != st.NumFields() {
+				t.unsupported(e, "composite literal of this struct / with missing fields")
+			}
+			args := make([]string, len(x.Elts))
+			for i, el := range x.Elts {
+				if _, isKV := el.(*ast.KeyValueExpr); isKV {
+					t.unsupported(e, "keyed composite literal")
+				}
+				if t.kindOfType(st.Field(i).Type()) == "val" {
+					args[i] = t.boxVal(el)
+				} else {
+					args[i] = t.expr(el)
+				}
+			}
+			return "(mk_" + k[4:] + " " + strings.Join(args, " ") + ")"
+		}
+		t.unsupported(e, "composite literal")
 	case *ast.BinaryExpr:
 		k := t.kindOfExpr(x.X)
 		if k == "nil" {
@@ -409,6 +464,13 @@ func (t *fnTr) expr(e ast.Expr) string {
 				} else {
 					t.unsupported(e, "comparison of function / pointer values")
 				}
+			case "vmap", "vlist":
+				// a nil map / slice and an empty one are the same model value (the entry list [])
+				if t.p.info.Types[x.Y].IsNil() {
+					r = "(match " + t.expr(x.X) + " with [] => true | _ => false end)"
+				} else {
+					t.unsupported(e, "comparison of maps / slices")
+				}
 			default:
 				t.unsupported(e, "== on this type")
 			}
@@ -437,6 +499,12 @@ func (t *fnTr) expr(e ast.Expr) string {
 		k := t.kindOfExpr(x.X)
 		// xs[i] with the loop index of xs
 		if id, ok := x.Index.(*ast.Ident); ok {
+			if lv, ok := t.locals[t.p.info.Uses[id]]; ok && lv.rangeOf != "" {
+				if types.ExprString(unparen(x.X)) == lv.rangeOf {
+					return lv.elem
+				}
+				t.unsupported(e, "range index applied to another expression")
+			}
 			if lv, ok := t.locals[t.p.info.Uses[id]]; ok && lv.elemOf != nil {
 				if base, ok := x.X.(*ast.Ident); ok && t.p.info.Uses[base] == lv.elemOf {
 					return lv.elem
@@ -454,7 +522,7 @@ func (t *fnTr) expr(e ast.Expr) string {
 		t.guards = append(t.guards, fmt.Sprintf("match nth_error %s %d with None => Crash | Some %s =>", base, i, n))
 		return n
 	case *ast.SliceExpr:
-		if t.kindOfExpr(x.X) != "str" || x.Slice3 {
+		if k := t.kindOfExpr(x.X); (k != "str" && k != "strs") || x.Slice3 {
 			t.unsupported(e, "slice expression")
 		}
 		var lo, hi int64
@@ -522,6 +590,7 @@ func (t *fnTr) wrap(mark int, body string) string {
 }
 
 var callTable = map[string]string{
+	"strconv.Itoa":      "go_itoa",
 	"strings.ToLower":   "to_lower",
 	"strings.HasPrefix": "go_has_prefix",
 	"strings.Split":     "go_split",
@@ -554,10 +623,12 @@ func (t *fnTr) call(x *ast.CallExpr) string {
 				if len(x.Args) != 2 || x.Ellipsis.IsValid() {
 					t.unsupported(x, "append form")
 				}
-				k := t.kindOfExpr(x.Args[0])
-				el := t.expr(x.Args[1])
+				k := strings.TrimPrefix(t.kindOfExpr(x.Args[0]), "ptr:")
+				var el string
 				if k == "vlist" {
 					el = t.boxVal(x.Args[1])
+				} else {
+					el = t.expr(x.Args[1])
 				}
 				return "(app " + t.expr(x.Args[0]) + " [" + el + "])"
 			case "make":
@@ -744,6 +815,12 @@ func (t *fnTr) assigned(list []ast.Stmt) []*lvar {
 	}
 	target := func(e ast.Expr, define bool) {
 		switch l := e.(type) {
+		case *ast.StarExpr:
+			if id, ok := l.X.(*ast.Ident); ok {
+				if lv, ok := t.locals[t.p.info.Uses[id]]; ok && strings.HasPrefix(lv.kind, "ptr:") {
+					add(lv)
+				}
+			}
 		case *ast.Ident:
 			if define {
 				if t.p.info.Defs[l] != nil {
@@ -776,11 +853,23 @@ func (t *fnTr) assigned(list []ast.Stmt) []*lvar {
 				}
 			case *ast.IncDecStmt:
 				target(x.X, false)
+			case *ast.ExprStmt:
+				// a recursive call writes through every out-parameter
+				if c, ok := x.X.(*ast.CallExpr); ok && t.isSelfCall(c) {
+					for _, sv := range t.state {
+						add(sv)
+					}
+				}
 			}
 			return true
 		})
 	}
 	return out
+}
+
+func (t *fnTr) isSelfCall(c *ast.CallExpr) bool {
+	id, ok := c.Fun.(*ast.Ident)
+	return ok && t.self != nil && t.p.info.Uses[id] == t.self
 }
 
 func tuplePat(vs []*lvar) string {
@@ -826,6 +915,9 @@ func tupleType(vs []*lvar) string {
 }
 
 func (t *fnTr) resultType() string {
+	if len(t.resKind) == 0 && len(t.state) > 0 {
+		return tupleType(t.state)
+	}
 	if len(t.resKind) == 2 && t.resKind[1] == "err" {
 		return "(res " + fnCoqType(t.resKind[0]) + ")"
 	}
@@ -880,6 +972,8 @@ func (t *fnTr) branching(s ast.Stmt, rest []ast.Stmt, end func() string, bodies 
 
 func (t *fnTr) retExpr(x *ast.ReturnStmt) string {
 	switch {
+	case len(t.resKind) == 0 && len(x.Results) == 0 && len(t.state) > 0:
+		return "Ret " + tupleVal(t.state)
 	case len(t.resKind) == 1 && len(x.Results) == 1:
 		mark := len(t.guards)
 		var v string
@@ -956,12 +1050,16 @@ func (t *fnTr) stmts(list []ast.Stmt, end func() string) string {
 		}
 		return out + next()
 	case *ast.IncDecStmt:
-		id, ok := x.X.(*ast.Ident)
+		tx := x.X
+		if st, ok := tx.(*ast.StarExpr); ok {
+			tx = st.X
+		}
+		id, ok := tx.(*ast.Ident)
 		if !ok {
 			t.unsupported(s, "inc/dec target")
 		}
 		lv, ok := t.locals[t.p.info.Uses[id]]
-		if !ok || lv.kind != "int" {
+		if !ok || (lv.kind != "int" && lv.kind != "ptr:int") || (lv.kind == "ptr:int") != (tx != x.X) {
 			t.unsupported(s, "inc/dec target")
 		}
 		op := "+"
@@ -1002,7 +1100,31 @@ func (t *fnTr) stmts(list []ast.Stmt, end func() string) string {
 	case *ast.ForStmt:
 		return t.forStmt(x, rest, end)
 	case *ast.ExprStmt:
-		t.unsupported(s, "expression statement (a call for its effect)")
+		c, ok := x.X.(*ast.CallExpr)
+		if !ok || !t.isSelfCall(c) {
+			t.unsupported(s, "expression statement other than a recursive call")
+		}
+		// the out-parameters must be passed through unchanged; the other arguments are evaluated now
+		t.recurs = true
+		mark := len(t.guards)
+		var args []string
+		for i, a := range c.Args {
+			if sv, isState := t.stateAt[i]; isState {
+				id, ok := a.(*ast.Ident)
+				if !ok || t.locals[t.p.info.Uses[id]] != sv {
+					t.unsupported(s, "recursive call that does not pass its out-parameters through")
+				}
+				args = append(args, sv.name)
+				continue
+			}
+			sig := t.self.Type().(*types.Signature)
+			if t.kindOfType(sig.Params().At(i).Type()) == "val" {
+				args = append(args, t.boxVal(a))
+			} else {
+				args = append(args, t.expr(a))
+			}
+		}
+		return t.wrap(mark, "bindr (fn_"+t.self.Name()+" fuel_ st "+strings.Join(args, " ")+")\n  (fun "+tuplePat(t.state)+" => "+next()+")")
 	}
 	t.unsupported(s, fmt.Sprintf("statement %T", s))
 	return ""
@@ -1010,8 +1132,41 @@ func (t *fnTr) stmts(list []ast.Stmt, end func() string) string {
 
 func (t *fnTr) assign(x *ast.AssignStmt, next func() string) string {
 	define := x.Tok == token.DEFINE
+	if x.Tok == token.ADD_ASSIGN && len(x.Lhs) == 1 && len(x.Rhs) == 1 {
+		// x += e  on a string / int local
+		id, ok := x.Lhs[0].(*ast.Ident)
+		if !ok {
+			t.unsupported(x, "+= target")
+		}
+		lv, ok := t.locals[t.p.info.Uses[id]]
+		if !ok || (lv.kind != "str" && lv.kind != "int") {
+			t.unsupported(x, "+= target")
+		}
+		mark := len(t.guards)
+		v := t.expr(x.Rhs[0])
+		if lv.kind == "str" {
+			return t.wrap(mark, "let "+lv.name+" := (app "+lv.name+" "+v+") in\n  "+next())
+		}
+		return t.wrap(mark, "let "+lv.name+" := ("+lv.name+" + "+v+")%Z in\n  "+next())
+	}
 	if x.Tok != token.ASSIGN && !define {
 		t.unsupported(x, "assignment operator "+x.Tok.String())
+	}
+	// *p = e on an out-parameter
+	if len(x.Lhs) == 1 && len(x.Rhs) == 1 {
+		if st, ok := x.Lhs[0].(*ast.StarExpr); ok {
+			id, ok := st.X.(*ast.Ident)
+			if !ok {
+				t.unsupported(x, "assignment target")
+			}
+			lv, ok := t.locals[t.p.info.Uses[id]]
+			if !ok || !strings.HasPrefix(lv.kind, "ptr:") {
+				t.unsupported(x, "assignment through something other than an out-parameter")
+			}
+			mark := len(t.guards)
+			v := t.expr(x.Rhs[0])
+			return t.wrap(mark, "let "+lv.name+" := "+v+" in\n  "+next())
+		}
 	}
 	// two-value forms
 	if len(x.Lhs) == 2 && len(x.Rhs) == 1 {
@@ -1145,6 +1300,12 @@ func (t *fnTr) assign(x *ast.AssignStmt, next func() string) string {
 			t.unsupported(x, "assignment target")
 		}
 		lv, ok := t.locals[t.p.info.Uses[id]]
+		if ok && lv.kind == "bmap" && lv.isState {
+			mark := len(t.guards)
+			k := t.expr(l.Index)
+			v := t.expr(x.Rhs[0])
+			return t.wrap(mark, "let "+lv.name+" := bset "+k+" "+v+" "+lv.name+" in\n  "+next())
+		}
 		if !ok || lv.kind != "vmap" || !lv.ownedMap() {
 			t.unsupported(x, "element assignment on something other than a map made by this function")
 		}
@@ -1338,11 +1499,9 @@ func (t *fnTr) typeSwitch(x *ast.TypeSwitchStmt, rest []ast.Stmt, end func() str
 // loop emits a range loop over the Gallina list xs; bindVars registers the loop variables (after the loop-carried
 // locals have been determined, so that the loop variables are not among them) and returns the element pattern.
 func (t *fnTr) loop(s ast.Stmt, body *ast.BlockStmt, xs string, bindVars func() string, elemTy string, rest []ast.Stmt, end func() string) string {
-	if t.inLoop {
-		t.unsupported(s, "nested loop")
-	}
 	as := t.assigned(body.List)
 	pat := bindVars()
+	savedIn, savedEnd := t.inLoop, t.loopEnd
 	t.inLoop = true
 	t.loopEnd = func() string { return "Next " + tupleVal(as) }
 	saved := map[types.Object]bool{}
@@ -1351,7 +1510,7 @@ func (t *fnTr) loop(s ast.Stmt, body *ast.BlockStmt, xs string, bindVars func() 
 	}
 	b := t.stmts(body.List, t.loopEnd)
 	t.escaped = saved
-	t.inLoop = false
+	t.inLoop, t.loopEnd = savedIn, savedEnd
 	st := tupleType(as)
 	return "bindc (S := " + st + ") (range_loop (fun (st_ : " + st + ") (el_ : " + elemTy + ") => let " + tuplePat(as) + " := st_ in let " + pat + " := el_ in\n    (" +
 		b + " : ctl " + st + " " + t.resultType() + ")) " + xs + " " + tupleVal(as) + ")\n  (fun " + tuplePat(as) + " => " + t.stmts(rest, end) + ")"
@@ -1372,6 +1531,10 @@ func (t *fnTr) rangeStmt(x *ast.RangeStmt, rest []ast.Stmt, end func() string) s
 		}
 		return t.newLocal(t.p.info.Defs[id], id.Name, kind).name
 	}
+	isBlank := func(e ast.Expr) bool {
+		id, ok := e.(*ast.Ident)
+		return e == nil || (ok && id.Name == "_")
+	}
 	mark := len(t.guards)
 	var xs string
 	if id, ok := x.X.(*ast.Ident); ok {
@@ -1383,33 +1546,42 @@ func (t *fnTr) rangeStmt(x *ast.RangeStmt, rest []ast.Stmt, end func() string) s
 	if xs == "" {
 		xs = t.expr(x.X)
 	}
-	if len(t.guards) != mark {
-		t.unsupported(x, "partial operation in the range expression")
+	// an index variable enumerates the list: elements are (index, member); X[i] is the member
+	withIndex := func(ek, et string) string {
+		if isBlank(x.Key) {
+			return t.loop(x, x.Body, xs, func() string { return name(x.Value, ek) }, et, rest, end)
+		}
+		return t.loop(x, x.Body, "(enumerate "+xs+")", func() string {
+			in := name(x.Key, "int")
+			vn := name(x.Value, ek)
+			if vn == "_" {
+				vn = t.newLocal(nil, "elem", ek).name
+			}
+			if id, ok := x.Key.(*ast.Ident); ok {
+				lv := t.locals[t.p.info.Defs[id]]
+				lv.rangeOf = types.ExprString(unparen(x.X))
+				lv.elem = vn
+			}
+			return "'(" + in + ", " + vn + ")"
+		}, "(Z * "+et+")", rest, end)
 	}
-	isBlank := func(e ast.Expr) bool {
-		id, ok := e.(*ast.Ident)
-		return e == nil || (ok && id.Name == "_")
-	}
+	var out string
 	switch k {
 	case "rows":
 		if !isBlank(x.Key) {
 			t.unsupported(x, "range over a table with an index variable")
 		}
-		return t.loop(x, x.Body, xs, func() string { return name(x.Value, "strs") }, "(list str)", rest, end)
-	case "strs", "vlist":
-		if !isBlank(x.Key) {
-			t.unsupported(x, "range over a slice with an index variable")
-		}
-		ek, et := "str", "str"
-		if k == "vlist" {
-			ek, et = "val", "value"
-		}
-		return t.loop(x, x.Body, xs, func() string { return name(x.Value, ek) }, et, rest, end)
+		out = t.loop(x, x.Body, xs, func() string { return name(x.Value, "strs") }, "(list str)", rest, end)
+	case "strs":
+		out = withIndex("str", "str")
+	case "vlist":
+		out = withIndex("val", "value")
 	case "vmap":
-		return t.loop(x, x.Body, xs, func() string { return "'(" + name(x.Key, "str") + ", " + name(x.Value, "val") + ")" }, "(str * value)", rest, end)
+		out = t.loop(x, x.Body, xs, func() string { return "'(" + name(x.Key, "str") + ", " + name(x.Value, "val") + ")" }, "(str * value)", rest, end)
+	default:
+		t.unsupported(x, "range over this type")
 	}
-	t.unsupported(x, "range over this type")
-	return ""
+	return t.wrap(mark, out)
 }
 
 // for i := c; i < len(xs); i++ { body } where i is read only as xs[i]: a range over (skipn c xs).
@@ -1492,7 +1664,7 @@ func constTable(p *pkgInfo, vs *ast.ValueSpec, i int) (string, bool) {
 // ---------------------------------------------------------------- driver
 
 // the functions translated into Pure_gen.v ("Recv.Method" for methods)
-var pureFuncs = []string{"cast", "escapeChars", "parsePath", "getSubKeyMap", "hasSubKeys", "Map.PathForKeyShortest"}
+var pureFuncs = []string{"cast", "escapeChars", "parsePath", "getSubKeyMap", "hasSubKeys", "Map.PathForKeyShortest", "valuesForKeyPath", "hasKey", "getLeafNodes"}
 
 func genPure(p *pkgInfo) string {
 	vars, _ := pkgVars(p)
@@ -1516,7 +1688,7 @@ func genPure(p *pkgInfo) string {
 				okAll := st.NumFields() > 0
 				for i := 0; i < st.NumFields(); i++ {
 					k := proto.kindOfType(st.Field(i).Type())
-					okAll = okAll && (k == "bool" || k == "str" || k == "int")
+					okAll = okAll && (k == "bool" || k == "str" || k == "int" || k == "val")
 				}
 				if okAll {
 					structs[name] = st
@@ -1621,27 +1793,62 @@ func genPure(p *pkgInfo) string {
 			t := &fnTr{p: p, vars: byObj, fn: fn, locals: map[types.Object]*lvar{}, used: map[string]int{}, tables: tables,
 				externs: &externs, structs: structs, escaped: map[types.Object]bool{}}
 			params := ""
-			addParam := func(id *ast.Ident) {
+			t.stateAt = map[int]*lvar{}
+			if fobj, ok := p.info.Defs[fn.Name].(*types.Func); ok {
+				t.self = fobj
+			}
+			// map[string]bool parameters that the body stores into are out-parameters too
+			mutated := map[types.Object]bool{}
+			ast.Inspect(fn.Body, func(n ast.Node) bool {
+				if as, ok := n.(*ast.AssignStmt); ok {
+					for _, l := range as.Lhs {
+						if ix, ok := l.(*ast.IndexExpr); ok {
+							if id, ok := ix.X.(*ast.Ident); ok {
+								mutated[p.info.Uses[id]] = true
+							}
+						}
+					}
+				}
+				return true
+			})
+			pos := 0
+			addParam := func(id *ast.Ident, isRecv bool) {
 				obj := p.info.Defs[id]
 				k := t.kindOfType(obj.Type())
 				if k == "" || k == "tok" || strings.HasPrefix(k, "rec") {
 					t.unsupported(id, "parameter type "+obj.Type().String())
 				}
 				n := "p_" + id.Name
-				t.locals[obj] = &lvar{name: n, kind: k}
+				lv := &lvar{name: n, kind: k}
+				t.locals[obj] = lv
 				t.used[n] = 1
 				params += fmt.Sprintf(" (%s : %s)", n, fnCoqType(k))
+				if strings.HasPrefix(k, "ptr:") || (k == "bmap" && mutated[obj]) {
+					lv.isState = true
+					t.state = append(t.state, lv)
+					if !isRecv {
+						t.stateAt[pos] = lv
+					}
+				} else if mutated[obj] {
+					t.unsupported(id, "a parameter of this type is stored into")
+				}
+				if !isRecv {
+					pos++
+				}
 			}
 			if fn.Recv != nil {
-				addParam(fn.Recv.List[0].Names[0])
+				addParam(fn.Recv.List[0].Names[0], true)
 			}
 			for _, fld := range fn.Type.Params.List {
 				for _, id := range fld.Names {
-					addParam(id)
+					addParam(id, false)
 				}
 			}
 			if fn.Type.Results == nil {
-				t.unsupported(fn, "no result")
+				if len(t.state) == 0 {
+					t.unsupported(fn, "no result and no out-parameter")
+				}
+				fn.Type.Results = &ast.FieldList{}
 			}
 			for _, r := range fn.Type.Results.List {
 				if len(r.Names) > 0 {
@@ -1659,14 +1866,30 @@ func genPure(p *pkgInfo) string {
 			if t.resultType() == "?" {
 				t.unsupported(fn, "result list")
 			}
-			body := t.stmts(fn.Body.List, func() string { return "Fall" })
+			fallEnd := func() string { return "Fall" }
+			if len(t.resKind) == 0 {
+				fallEnd = func() string { return "Ret " + tupleVal(t.state) }
+				for _, sv := range t.state {
+					if strings.HasPrefix(sv.kind, "ptr:recs:") {
+						usedStructs[sv.kind[9:]] = true
+					}
+				}
+			}
+			body := t.stmts(fn.Body.List, fallEnd)
 			for _, lv := range t.locals {
 				if strings.HasPrefix(lv.kind, "rec:") {
 					usedStructs[lv.kind[4:]] = true
 				}
 			}
-			fmt.Fprintf(&bodies, "(* %s: func %s *)\nDefinition fn_%s (st : gstate)%s : ctl unit %s :=\n  %s.\n\n",
-				strings.TrimPrefix(p.fset.Position(fn.Pos()).String(), p.dir+"/"), qname, fn.Name.Name, params, t.resultType(), body)
+			where := strings.TrimPrefix(p.fset.Position(fn.Pos()).String(), p.dir+"/")
+			if t.recurs {
+				// recursion on explicit fuel: running out of fuel is a Crash, excluded by the theorems' fuel hypothesis
+				fmt.Fprintf(&bodies, "(* %s: func %s (recursive: fuel) *)\nFixpoint fn_%s (fuel : nat) (st : gstate)%s {struct fuel} : ctl unit %s :=\n  match fuel with\n  | O => Crash\n  | S fuel_ =>\n  %s\n  end.\n\n",
+					where, qname, fn.Name.Name, params, t.resultType(), body)
+			} else {
+				fmt.Fprintf(&bodies, "(* %s: func %s *)\nDefinition fn_%s (st : gstate)%s : ctl unit %s :=\n  %s.\n\n",
+					where, qname, fn.Name.Name, params, t.resultType(), body)
+			}
 		}
 	}
 	for _, n := range pureFuncs {
